@@ -83,14 +83,74 @@ def call_parts(n):
     return None, []
 
 
+SHAPE = {"vec": {"n"}, "square": {"d"}, "general": {"r", "c"}, "flat": {"s"}}
+
+
+def norm_comp(kind, raw):
+    """component of an operand of the given (kind, packed) that a raw getter/field component denotes"""
+    k, packed = kind
+    if raw in ("x", "*"):
+        return raw
+    if k == "vec":
+        return "n" if raw in ("d", "s", "n") else "x"
+    if k == "square":
+        if raw in ("r", "c", "d"):
+            return "d"
+        return "d" if (raw in ("s", "n") and packed) else "s"
+    if k == "general":
+        return raw if raw in ("r", "c") else ("s" if raw in ("s", "n") else "x")
+    return "s" if raw in ("s", "n") else "x"
+
+
+def translate(comp, callee_kind, caller_kind):
+    """a component compared inside a callee, seen from the static class of the caller's operand"""
+    if comp in ("x", "*"):
+        return comp
+    if comp in ("n", "s") or (comp == "d" and callee_kind[0] == "vec"):
+        return norm_comp(caller_kind, "s")          # the flat element count
+    return norm_comp(caller_kind, comp)
+
+
 class Summary:
     def __init__(self):
         self.slots = []          # 'this', 'p0', 'p1', ...
         self.names = {}          # slot -> display name
         self.touched = {}        # slot -> [touch nodes]
-        self.ties = []           # (X, Y, site node or None (= function entry), kind, valid)
+        self.ties = []           # (X, Y, site node or None (= function entry), kind, valid, pairs)
         self.checks = 0          # recognised BadRank comparisons
         self.comp = {}
+        self.kind = {}           # slot -> (kind, flat count determines shape)
+        self.untied = {}         # (X, Y) -> why the dominating ties do not cover the shapes
+
+    def pairs(self, x, y):
+        """component pairs (component of x, component of y) of the dominating ties between x and y"""
+        out = set()
+        for a, b, site, kind, valid, prs in self.ties:
+            if not valid:
+                continue
+            if (a, b) == (x, y):
+                out |= set(prs)
+            elif (a, b) == (y, x):
+                out |= {(q, p) for p, q in prs}
+        return out
+
+    def shape_tied(self, x, y):
+        """do the compared components cover what two operands of these shapes need?"""
+        P = self.pairs(x, y)
+        sx, sy = SHAPE[self.kind[x][0]], SHAPE[self.kind[y][0]]
+        good = {(a, b) for a, b in P if (a == "*" or a in sx) and (b == "*" or b in sy)}
+        if not good:
+            if P:
+                self.untied[(x, y)] = ("only %s compared - not a component of the shape of a %s"
+                                       % (sorted(P), "/".join(sorted({self.kind[x][0], self.kind[y][0]}))))
+            return False
+        if self.kind[x][0] == "general" and self.kind[y][0] == "general" and not any("*" in g for g in good):
+            like = {g for g in good if g[0] == g[1]}
+            if len(like) == 1 and not (good - like) and ("s", "s") not in P:
+                self.untied[(x, y)] = ("only the %s are compared with each other: an element-wise operation on two "
+                                       "general matrices needs rows and cols" % ("rows" if ("r", "r") in like else "cols"))
+                return False
+        return True
 
     def finish(self):
         parent = {s: s for s in self.slots}
@@ -100,9 +160,12 @@ class Summary:
                 parent[a] = parent[parent[a]]
                 a = parent[a]
             return a
-        for x, y, site, kind, valid in self.ties:
-            if valid:
-                parent[find(x)] = find(y)
+        done = set()
+        for x, y, site, kind, valid, prs in self.ties:
+            if valid and (x, y) not in done and (y, x) not in done:
+                done.add((x, y))
+                if self.shape_tied(x, y):
+                    parent[find(x)] = find(y)
         self.comp = {s: find(s) for s in self.slots}
 
     def connected(self, a, b):
@@ -179,6 +242,26 @@ class Model:
             self._dimfields[cq] = s
         return self._dimfields[cq]
 
+    def kind(self, cq):
+        t = self.t
+        line = {cq} | self.bases(cq)
+        if cq in t["aggregates_general"]:
+            return ("general", False)
+        if t["vector_root"] in line:
+            return ("vec", True)
+        if line & set(t["square_classes"]):
+            return ("square", bool(line & set(t["flat_count_determines_shape"])))
+        if t["matrix_root"] in line:
+            return ("general", False)
+        return ("flat", True)
+
+    def field_comp(self, cq, member):
+        for c in [cq] + sorted(self.bases(cq)):
+            r = self.t["field_component"].get(c, {}).get(member)
+            if r:
+                return r
+        return None
+
     def is_operand_class(self, cq):
         return cq in self.hier or cq in self.composite
 
@@ -225,6 +308,7 @@ class Analysis:
                 self.param_slot[p["decl"]] = slot
         for sl in s.slots:
             s.touched[sl] = []
+            s.kind[sl] = m.kind(self.slot_cls[sl])
 
     def operand_of(self, e):
         """slot of the operand object an expression denotes, else None"""
@@ -290,6 +374,15 @@ class Analysis:
         return set()
 
     def dim_owners(self, e, depth=0):
+        return {o for o, comp in self.dim_comps(e, depth)}
+
+    def one_comp(self, e, slot):
+        """the single shape component of `slot` that e denotes, 'x' if it mixes several"""
+        cs = {comp for o, comp in self.dim_comps(e) if o == slot}
+        return next(iter(cs)) if len(cs) == 1 else "x"
+
+    def dim_comps(self, e, depth=0):
+        """{(operand, component)} whose dimensions feed the integer expression e"""
         if e is None or depth > 40:
             return set()
         k = e.get("k")
@@ -304,13 +397,15 @@ class Analysis:
             else:
                 o = self.operand_of(base)
             if o and e.get("member") in self.m.dimfields(self.slot_cls[o]):
-                return {o}
+                raw = self.m.field_comp(self.slot_cls[o], e.get("member")) or "x"
+                return {(o, norm_comp(self.s.kind[o], raw))}
             return set()
         if k == "CXXMemberCallExpr":
             obj, args = call_parts(e)
             o = self.operand_of(obj)
-            if o and not args and strip_targs(e.get("callee") or "").rsplit("::", 1)[-1] in self.m.getters:
-                return {o}
+            g = strip_targs(e.get("callee") or "").rsplit("::", 1)[-1]
+            if o and not args and g in self.m.getters:
+                return {(o, norm_comp(self.s.kind[o], self.m.t["getter_component"].get(g, "x")))}
             return set()
         if k in ("BinaryOperator", "UnaryOperator", "ConditionalOperator") or k in _CASTS:
             if k == "BinaryOperator" and e.get("op") in ("=", ",", "==", "!=", "<", ">", "<=", ">=", "&&", "||"):
@@ -318,7 +413,7 @@ class Analysis:
             out = set()
             kids = c[1:] if k == "ConditionalOperator" else c
             for x in kids:
-                out |= self.dim_owners(x, depth + 1)
+                out |= self.dim_comps(x, depth + 1)
             return out
         return set()
 
@@ -350,7 +445,7 @@ class Analysis:
                         self.ptr.setdefault(d, set()).update(new)
                         changed = True
                 elif is_int(t):
-                    new = self.dim_owners(v)
+                    new = self.dim_comps(v)
                     if not new <= self.dim.get(d, set()):
                         self.dim.setdefault(d, set()).update(new)
                         changed = True
@@ -393,8 +488,15 @@ class Analysis:
                 xs = sorted(mp)
                 for i, x in enumerate(xs):
                     for y in xs[i + 1:]:
-                        if any(cs.connected(a, b) for a in mp[x] for b in mp[y]):
-                            ties.append((x, y, n, "delegation to %s" % F.short(callee.rec["qn"])))
+                        prs = set()
+                        for a in mp[x]:
+                            for b in mp[y]:
+                                if a != b and cs.connected(a, b):
+                                    for ca, cb in cs.pairs(a, b):
+                                        prs.add((translate(ca, cs.kind[a], self.s.kind[x]),
+                                                 translate(cb, cs.kind[b], self.s.kind[y])))
+                        if prs:
+                            ties.append((x, y, n, "delegation to %s" % F.short(callee.rec["qn"]), prs))
         else:
             o = self.operand_of(obj) if obj is not None else None
             if o and name in self.m.accessors and not is_ptr(n.get("t", "")):
@@ -407,9 +509,11 @@ class Analysis:
 
     # ----------------------------------------------------------------- establishing actions
     def _arg_owners(self, args):
-        out = set()
+        """{operand: {single components that feed one of the arguments}}"""
+        out = {}
         for a in args:
-            out |= self.dim_owners(a)
+            for o in self.dim_owners(a):
+                out.setdefault(o, set()).add(self.one_comp(a, o))
         return out
 
     def _establish(self):
@@ -424,7 +528,8 @@ class Analysis:
                 if name in self.m.resizers:
                     o = self.operand_of(obj)
                     if o:
-                        own = self._arg_owners(args) - {o}
+                        own = self._arg_owners(args)
+                        own.pop(o, None)
                         if own:
                             acts.append((o, own, n))
             elif k == "BinaryOperator" and n.get("op") == "=":
@@ -433,12 +538,12 @@ class Analysis:
                     o = self.dim_owners(lhs)
                     if len(o) == 1:
                         x = next(iter(o))
-                        own = self.dim_owners(rhs) - {x}
                         # chained  a = b = expr : the value is the right-most operand
                         r = rhs
                         while r.get("k") == "BinaryOperator" and r.get("op") == "=":
                             r = r["c"][1]
-                            own |= self.dim_owners(r) - {x}
+                        own = self._arg_owners([r])
+                        own.pop(x, None)
                         if own:
                             acts.append((x, own, n))
         if "this" in self.slot_cls:
@@ -447,11 +552,13 @@ class Analysis:
                 if e is None:
                     continue
                 if init.get("base") and F.is_call(e):
-                    own = self._arg_owners([a for a in call_parts(e)[1] if is_int(a.get("t", ""))]) - {"this"}
+                    own = self._arg_owners([a for a in call_parts(e)[1] if is_int(a.get("t", ""))])
+                    own.pop("this", None)
                     if own:
                         acts.append(("this", own, None))
                 elif init.get("field") in self.m.dimfields(self.slot_cls["this"]):
-                    own = self.dim_owners(e) - {"this"}
+                    own = self._arg_owners([e])
+                    own.pop("this", None)
                     if own:
                         acts.append(("this", own, None))
         return acts
@@ -528,7 +635,7 @@ class Analysis:
                 how = "resize"
             else:
                 self.s.checks += 1
-            ties.append((x, y, n, "comparison, mismatch -> %s" % how))
+            ties.append((x, y, n, "comparison, mismatch -> %s" % how, {(self.one_comp(a, x), self.one_comp(b, y))}))
 
     def _all_through(self, start, blocks):
         return not self.fn.cfg.paths_avoiding(start, blocks, {self.fn.cfg.exit})
@@ -570,18 +677,18 @@ class Analysis:
                     self._scan_call(e, this_expr, call_parts(e)[1], ties)
         acts = self._establish()
         for (o, own, site) in acts:
-            for y in own:
-                ties.append((o, y, site, "resize / dimension assignment"))
+            for y, comps in own.items():
+                ties.append((o, y, site, "resize / dimension assignment", {("*", c) for c in comps}))
         self._checks(acts, ties)
         cfg = fn.cfg
 
         def covers(site, t):
             return site is None or site["id"] == t["id"] or cfg.dominates(site, t)
-        for (x, y, site, kind) in ties:
+        for (x, y, site, kind, prs) in ties:
             if x not in s.touched or y not in s.touched or x == y:
                 continue
             valid = all(covers(site, t) for t in s.touched[x]) or all(covers(site, t) for t in s.touched[y])
-            s.ties.append((x, y, site, kind, valid))
+            s.ties.append((x, y, site, kind, valid, frozenset(prs)))
         s.finish()
         return s
 
